@@ -59,6 +59,10 @@ type vfConnScenarioCfg struct {
 	PerCall  int
 	Seed     int64
 	Coalesce bool
+	HB       string // "": the heartbeat keeps its real 1 s / 5 s pace (it hardly ever fires); "on": a beat every 1-3 ms,
+	// the node answering OPTIONS promptly / late / never / with an ERROR / with a frame of another kind / with an
+	// unparsable SUPPORTED; "dead": from some point on the node never answers OPTIONS again
+	TLimit int // value of the package variable TimeoutLimit during this scenario (such scenarios run alone)
 }
 
 type vfConnPendingAnswer struct {
@@ -76,6 +80,11 @@ func vfConnOutcome(err error, echoed string, want string) string {
 	case errors.Is(err, context.Canceled), errors.Is(err, context.DeadlineExceeded):
 		return "ctx"
 	case errors.Is(err, ErrConnectionClosed):
+		return "closed"
+	case errors.Is(err, ErrTooManyTimeouts), strings.Contains(err.Error(), "heartbeat failed"),
+		strings.Contains(err.Error(), "unknown frame in response to options"):
+		// the error the connection was closed with (TimeoutLimit exceeded / the heartbeat gave it up),
+		// handed to the callers that were waiting
 		return "closed"
 	case errors.Is(err, ErrNoStreams):
 		return "nostreams"
@@ -121,15 +130,51 @@ func vfRunConnScenario(cfg vfConnScenarioCfg) (events []map[string]interface{}, 
 	var nodeRecv, nodeSent, recvHandled, writesOK int64
 	var awg sync.WaitGroup                              // answer goroutines of the node
 	nrng := rand.New(rand.NewSource(cfg.Seed ^ 0x5eed)) // used under nmu only
+	var targetNC atomic.Value // *vfNodeConn of the connection under test (known once connect returned)
+	var hbSeen, hbPaused, hbDeadFrom int64
+	hbDeadFrom = 1 << 40
+	hbrng := rand.New(rand.NewSource(cfg.Seed ^ 0x4b)) // used under nmu only
 	node.Handler = func(nc *vfNodeConn, f *vfFrame, q *vfRequest) bool {
-		if f.Op != vfOpQuery || !strings.HasPrefix(q.Stmt, "tok_") {
+		isHB := false
+		if f.Op == vfOpOptions {
+			if t, _ := targetNC.Load().(*vfNodeConn); t == nil || t != nc {
+				return false
+			}
+			isHB = true
+		} else if f.Op != vfOpQuery || !strings.HasPrefix(q.Stmt, "tok_") {
 			return false
 		}
-		tok := q.Stmt
+		var tok string
 		fate := "prompt"
-		parts := strings.Split(tok, "_") // tok_<id>_<fate>
-		if len(parts) >= 3 {
-			fate = parts[2]
+		if isHB {
+			// the connection's heartbeat: tok hb_<n>_<fate>
+			n := atomic.AddInt64(&hbSeen, 1)
+			nmu.Lock()
+			if atomic.LoadInt64(&hbPaused) == 0 {
+				switch x := hbrng.Intn(100); {
+				case n >= atomic.LoadInt64(&hbDeadFrom):
+					fate = "never"
+				case cfg.HB != "on":
+				case x < 12:
+					fate = "never"
+				case x < 20:
+					fate = "late"
+				case x < 30:
+					fate = "err"
+				case x < 36:
+					fate = "hbbad" // SUPPORTED whose body does not parse
+				case x < 39:
+					fate = "hbunk" // a well-formed frame of a kind that does not answer OPTIONS
+				}
+			}
+			nmu.Unlock()
+			tok = fmt.Sprintf("hb_%d_%s", n, fate)
+		} else {
+			tok = q.Stmt
+			parts := strings.Split(tok, "_") // tok_<id>_<fate>
+			if len(parts) >= 3 {
+				fate = parts[2]
+			}
 		}
 		nmu.Lock()
 		old := withheld[f.Stream]
@@ -141,7 +186,11 @@ func vfRunConnScenario(cfg vfConnScenarioCfg) (events []map[string]interface{}, 
 		for _, o := range old {
 			atomic.AddInt64(&nodeSent, 1)
 			tr.Emit("n_send", "stream", o.stream, "tok", o.tok, "nconn", nc.ID, "late", 1)
-			nc.Reply(o.frame, vfOpResult, vfSetKeyspaceBody(o.tok))
+			if strings.HasPrefix(o.tok, "hb_") {
+				nc.Reply(o.frame, vfOpSupported, vfSupportedBody(map[string][]string{"CQL_VERSION": {"3.0.0"}}, []string{"CQL_VERSION"}))
+			} else {
+				nc.Reply(o.frame, vfOpResult, vfSetKeyspaceBody(o.tok))
+			}
 		}
 		if fate == "never" {
 			withheld[f.Stream] = append(withheld[f.Stream], vfConnPendingAnswer{f.Stream, tok, f})
@@ -171,6 +220,17 @@ func vfRunConnScenario(cfg vfConnScenarioCfg) (events []map[string]interface{}, 
 			if fate == "err" {
 				// a server ERROR frame (invalid query) carrying the token in its message
 				nc.Reply(f, vfOpError, vfErrorBody(0x2200, tok, nil))
+				return
+			}
+			if isHB {
+				switch fate {
+				case "hbbad":
+					nc.Reply(f, vfOpSupported, []byte{0, 1, 0, 9, 'C'}) // string multimap cut short
+				case "hbunk":
+					nc.Reply(f, vfOpReady, nil)
+				default:
+					nc.Reply(f, vfOpSupported, vfSupportedBody(map[string][]string{"CQL_VERSION": {"3.0.0"}}, []string{"CQL_VERSION"}))
+				}
 				return
 			}
 			if fate == "cflag" {
@@ -209,36 +269,82 @@ func vfRunConnScenario(cfg vfConnScenarioCfg) (events []map[string]interface{}, 
 		return nil, "session: " + err.Error()
 	}
 	defer s.Close()
+	// the heartbeat of the connection under test (the first connection created from here on) may be
+	// paced by the scenario; every other connection keeps the real pace
+	h := &vfConnNopHandler{closedCh: make(chan struct{})}
+	var hbTicks, hbRets, hbPausedOK int64
+	hbIv := time.Duration(1000+rng.Intn(2000)) * time.Microsecond
+	sc.OnDur = func(point string, c *Conn, d time.Duration) time.Duration {
+		if eh, _ := c.errorHandler.(*vfConnNopHandler); eh != h {
+			return d // not the connection under test (recognised by its error handler)
+		}
+		if atomic.LoadInt64(&hbPaused) != 0 {
+			if point == "hb_next" {
+				atomic.AddInt64(&hbPausedOK, 1)
+			}
+			return time.Hour
+		}
+		if cfg.HB == "" {
+			return d
+		}
+		return hbIv
+	}
 	sc.BindSession(s)
 	host := s.ring.allHosts()[0]
-	h := &vfConnNopHandler{closedCh: make(chan struct{})}
 	conn, err := s.connect(s.ctx, host, h)
 	if err != nil {
 		return nil, "connect: " + err.Error()
 	}
+	// the node's end of the connection under test: the one reading the pipe this connection writes to
+	if tmc, ok := conn.conn.(*vfMemConn); ok {
+		for _, nc := range node.Conns() {
+			if nc.Conn.in == tmc.out {
+				targetNC.Store(nc)
+			}
+		}
+	}
+	if targetNC.Load() == nil {
+		return nil, "node end of the connection under test not found"
+	}
 	sc.Bind(conn)
 	sc.Bind(conn.w)
+	connIDEarly := tr.ObjID(conn)
 	sc.OnConn = func(point string, c *Conn, call *callReq, a, b int, err error) {
 		if c != conn {
 			return
 		}
 		switch point {
 		case "x_wend":
-			if err == nil && call != nil && sc.ReqOf(call) > 0 {
+			if err == nil && call != nil && sc.ReqOf(call) != 0 {
 				atomic.AddInt64(&writesOK, 1)
 			}
 		case "r_arm_deliver", "r_arm_timeout", "r_arm_ctx":
-			if call != nil && sc.ReqOf(call) > 0 {
+			if call != nil && sc.ReqOf(call) != 0 {
 				atomic.AddInt64(&recvHandled, 1)
 			}
+		case "hb_tick":
+			// the heartbeat is a caller like any other: its requests are numbered 100000+k
+			k := atomic.AddInt64(&hbTicks, 1)
+			tr.Emit("call", "req", 100000+int(k), "conn", connIDEarly, "fate", "hb")
+		case "hb_ret":
+			k := atomic.LoadInt64(&hbTicks)
+			outcome := vfConnOutcome(err, "hb", "hb")
+			tr.Emit("ret", "req", 100000+int(k), "conn", connIDEarly, "outcome", outcome, "echo", "hb", "tok", "hb")
+			atomic.AddInt64(&hbRets, 1)
 		}
 	}
 	dconns := d.DriverConns[desc.Addr]
 	mc := dconns[len(dconns)-1]
+	if tmc, ok := conn.conn.(*vfMemConn); ok {
+		mc = tmc
+	}
 	wireBase := len(mc.Written())
 	connID := tr.ObjID(conn)
 	capacity := conn.streams.NumStreams - 1
-	tr.Emit("env_conn", "conn", connID, "cap", capacity, "proto", cfg.Proto, "kind", cfg.Kind)
+	tr.Emit("env_conn", "conn", connID, "cap", capacity, "proto", cfg.Proto, "kind", cfg.Kind, "hb", cfg.HB, "tl", cfg.TLimit)
+	if cfg.HB == "dead" {
+		atomic.StoreInt64(&hbDeadFrom, atomic.LoadInt64(&hbSeen)+int64(2+rng.Intn(4)))
+	}
 
 	var nextReq int64
 	var stuck int32
@@ -398,6 +504,23 @@ func vfRunConnScenario(cfg vfConnScenarioCfg) (events []map[string]interface{}, 
 	if faultTimer != nil {
 		faultTimer.Stop()
 	}
+	if cfg.HB == "dead" {
+		// the heartbeat is expected to give the connection up (6 failures, each one request timeout long)
+		for i := 0; i < 5000 && !conn.Closed(); i++ {
+			time.Sleep(2 * time.Millisecond)
+		}
+	}
+	// ---- the heartbeat rests: OPTIONS are answered promptly from now on, and after its next success it
+	// sleeps for an hour (event-based: wait for that success, or for the connection to be closed)
+	atomic.StoreInt64(&hbPaused, 1)
+	if cfg.HB != "" {
+		for i := 0; i < 10000 && !conn.Closed(); i++ {
+			if atomic.LoadInt64(&hbPausedOK) > 0 && atomic.LoadInt64(&hbTicks) == atomic.LoadInt64(&hbRets) {
+				break
+			}
+			time.Sleep(2 * time.Millisecond)
+		}
+	}
 
 	// ---- quiescence: every answer the node will ever send has been sent, the receiver has
 	// handled each of them (event-based, not time-based), and the allocator has settled.
@@ -427,7 +550,11 @@ func vfRunConnScenario(cfg vfConnScenarioCfg) (events []map[string]interface{}, 
 		time.Sleep(2 * time.Millisecond)
 	}
 	closed := conn.Closed()
-	settled := answered && atomic.LoadInt64(&recvHandled) >= atomic.LoadInt64(&nodeSent) &&
+	hbQuiet := cfg.HB == "" || (atomic.LoadInt64(&hbPausedOK) > 0 && atomic.LoadInt64(&hbTicks) == atomic.LoadInt64(&hbRets))
+	if cfg.HB == "" && atomic.LoadInt64(&hbTicks) != atomic.LoadInt64(&hbRets) {
+		hbQuiet = false // a real-pace heartbeat is in flight right now (slow machine): no sample
+	}
+	settled := answered && hbQuiet && atomic.LoadInt64(&recvHandled) >= atomic.LoadInt64(&nodeSent) &&
 		atomic.LoadInt64(&nodeRecv) >= atomic.LoadInt64(&writesOK)
 	if closed || settled {
 		tr.Emit("avail", "conn", connID, "avail", conn.AvailableStreams(), "closed", vfB2I(closed), "cap", capacity)
@@ -470,7 +597,8 @@ func TestVfConnStress(t *testing.T) {
 	n := vfEnvInt("VF_NSCEN", 12)
 	callers := vfEnvInt("VF_CALLERS", 8)
 	per := vfEnvInt("VF_PERCALL", 12)
-	kinds := []string{"plain", "srvclose", "extclose", "writefail", "buildfail", "exhaust", "coalesce", "unsol", "midbody", "mixed", "badflag"}
+	kinds := []string{"plain", "srvclose", "extclose", "writefail", "buildfail", "exhaust", "coalesce", "unsol", "midbody", "mixed", "badflag",
+		"hb", "hbdead", "hbwritefail", "hbextclose"}
 	rng := rand.New(rand.NewSource(vfSeed()))
 	var wg sync.WaitGroup
 	sem := make(chan struct{}, 8)
@@ -483,6 +611,17 @@ func TestVfConnStress(t *testing.T) {
 		}
 		if cfg.Kind == "coalesce" {
 			cfg.Coalesce = true
+		}
+		switch cfg.Kind {
+		case "hb":
+			cfg.HB = "on"
+			cfg.Coalesce = i%2 == 0
+		case "hbdead":
+			cfg.HB = "dead"
+		case "hbwritefail":
+			cfg.HB, cfg.Kind = "on", "writefail"
+		case "hbextclose":
+			cfg.HB, cfg.Kind = "on", "extclose"
 		}
 		wg.Add(1)
 		sem <- struct{}{}
@@ -508,6 +647,28 @@ func TestVfConnStress(t *testing.T) {
 		}(i, cfg)
 	}
 	wg.Wait()
+	// TimeoutLimit is a package variable ("should not be changed concurrently with queries"): these
+	// scenarios run one at a time, after all the others
+	ntl := vfEnvInt("VF_NTLIMIT", 2)
+	for j := 0; j < ntl; j++ {
+		cfg := vfConnScenarioCfg{Kind: "tlimit", Proto: 4 - 2*(j%2), Callers: callers, PerCall: per, Seed: rng.Int63(), TLimit: 1 + j%3}
+		TimeoutLimit = int64(cfg.TLimit)
+		evs, fatal := vfRunConnScenario(cfg)
+		TimeoutLimit = 0
+		if fatal != "" {
+			fatals = append(fatals, fatal)
+			continue
+		}
+		out, err := vfCreateNDJSON(vfOutPath(fmt.Sprintf("conn_%03d.ndjson", n+j)))
+		if err != nil {
+			t.Error(err)
+			continue
+		}
+		for _, e := range evs {
+			out.Write(e)
+		}
+		out.Close()
+	}
 	if len(fatals) > 0 {
 		t.Fatalf("VFHARNESS scenario setup failed: %v", fatals)
 	}
